@@ -69,6 +69,7 @@ def primName : String → String
   | "VisibleString" => "VisibleString"
   | "IA5String" => "Ia5String"
   | "TeletexString" => "TeletexString"
+  | "T61String" => "TeletexString"   -- X.680 41: a synonym
   | "UTF8String" => "Utf8String"
   | "UniversalString" => "UniversalString"
   | "PrintableString" => "PrintableString"
